@@ -70,6 +70,7 @@ def run(rep):
             if method == 'DualAverage' and jit: rep.sample({'query': tag, 'paths': len(outs), 'example events': [e for e in q.post(outs[0][0])['events']]})
     new_no_panic(rep, mir, L)
     progress_order(rep, mir, L)
+    native_traces(rep)
 
 def _b(v): return z3.BoolVal(v) if isinstance(v, bool) else v
 
@@ -141,3 +142,23 @@ def order_of_calls(fn):
         for n in succ.get(b, []):
             if n not in seen: seen.add(n); stack.append((n, path + [n]))
     return {'is_tuning_after_adapt': witness is None, 'witness': witness}
+
+
+def native_traces(rep):
+    """model validation against the real build (not a deciding step): real DiagNutsSettings chains over a matrix of warm-up lengths and final-window
+    fractions must show what the one-step result implies for whole runs - draw d is a tuning draw iff d < num_tune, and with jitter off the step
+    size reported from the last tuning draw on never changes.  A disagreement means the model missed something: the run is inconclusive."""
+    n = 0; bad = []
+    for nt in ((0, 1, 2, 3, 4, 7, 16, 33) if rep.tier == 'thorough' else (0, 3, 16)):
+        for w in ((0.0, 0.125, 0.5) if rep.tier == 'thorough' else (0.125,)):
+            cfg = {'num_tune': nt, 'num_draws': 5, 'step_size_window': w, 'early_window': 0.25, 'switch_freq': 6, 'early_switch_freq': 3, 'seed': 1 + nt}
+            r = native.run('schedule', cfg, timeout=120)
+            if not r or not r.get('confirmed'): rep.notes.append('C06.V native trace unavailable for %s: %s' % (cfg, str(r)[:120])); continue
+            tun = r['tuning']; st = r['step_size']; n += len(tun)
+            if any(t != (d < nt) for d, t in enumerate(tun)): bad.append({'config': cfg, 'problem': 'tuning flags', 'tuning': tun})
+            tail = st[max(nt - 1, 0):]
+            if nt > 0 and any(x != tail[0] for x in tail): bad.append({'config': cfg, 'problem': 'step size changes after the last tuning draw (jitter off)', 'steps': tail})
+    rep.validated += n
+    if bad: rep.validation_mismatch += bad; rep.errors.append('C06.V a native run contradicts what the one-step result implies: %s' % str(bad[0])[:300])
+    elif n: rep.notes.append('C06.V %d draws of native DiagNuts chains agree with the one-step result (tuning <=> d < num_tune; step size frozen from the last tuning draw on)' % n)
+    rep.cover('C06.V native traces compared', n > 0)
